@@ -39,6 +39,9 @@ def sym_record(eng, st, cls, name=None):
             v, fs = sym_record(eng, st, ty[1], f"{name or cls}_{f}")
             vals[f] = v
             facts += fs
+        elif ty == "dict":
+            # a dictionary with byte-string keys and values (HTTP headers / parameters)
+            vals[f] = sym_dict(eng, st)
         else:
             v, fs = sym_value(f"{name or cls}_{f}", ty)
             vals[f] = v
@@ -215,6 +218,23 @@ def new_dict(eng, st, log=None):
                       "map": z3.K(Val, Val.VN) if log is None else fresh("dmap", z3.ArraySort(Val, Val)),
                       "log": VS.empty if log is None else log}
     return VRef(ident, "dict")
+
+
+def sym_dict(eng, st, et=("tuple", "bytes", "bytes")):
+    from .values import wt_seq
+    log = fresh("dlog", VSq)
+    ref = new_dict(eng, st, log=log)
+    cell = st.heap[ref.ident]
+    cell["vt"] = et[2]
+    st.assume(*wt_seq(log, et))
+    # the keys are byte strings and every stored value is a byte string
+    k = fresh("dk", I)
+    kk = VS.at(cell["keys"], k)
+    from .values import Binder
+    with Binder():
+        body = z3.And(*(wt(kk, et[1]) + wt(z3.Select(cell["map"], kk), et[2])))
+    st.assume(z3.ForAll([k], z3.Implies(z3.And(0 <= k, k < VS.len(cell["keys"])), body), patterns=[kk]))
+    return ref
 
 
 def dict_has_term(cell, kt):
